@@ -664,7 +664,7 @@ class ClientTls(Client):
                                 errno.EHOSTDOWN,
                                 errno.ETIMEDOUT,
                                 errno.ECONNREFUSED,
-                                ssl.SSLEOFError):
+                                ssl.SSL_ERROR_EOF):
                 emsg = ("socket.error = {0}: OutgoerTLS at {1} receiving"
                         " from {2}\n".format(ex, self.ca, self.ha))
                 console.profuse(emsg)
@@ -713,7 +713,7 @@ class ClientTls(Client):
                                 errno.EHOSTDOWN,
                                 errno.ETIMEDOUT,
                                 errno.ECONNREFUSED,
-                                ssl.SSLEOFError):
+                                ssl.SSL_ERROR_EOF):
                 emsg = ("socket.error = {0}: OutgoerTLS at {1} while sending "
                         "to {2} \n".format(ex, self.ca, self.ha))
                 console.profuse(emsg)
